@@ -82,10 +82,15 @@ class Mini:
         for a, d in zip(fn.args.kwonlyargs, fn.args.kw_defaults):
             if d is not None:
                 env[a.arg] = self.ev(d, {})
+        extra_names = {a.arg for a in (fn.args.vararg, fn.args.kwarg) if a is not None}
         for k, v in args.items():
-            if k not in params:
+            if k not in params and k not in extra_names:
                 raise AnalysisError(f"miniinterp: {fn.name} has no parameter {k}")
             env[k] = v
+        if fn.args.vararg is not None:
+            env.setdefault(fn.args.vararg.arg, ())
+        if fn.args.kwarg is not None:
+            env.setdefault(fn.args.kwarg.arg, {})
         missing = [p for p in params if p not in env]
         if missing:
             raise AnalysisError(f"miniinterp: {fn.name}: parameters {missing} not supplied")
@@ -95,13 +100,28 @@ class Mini:
             return r.value
         return None
 
-    def call_bound(self, fn: ast.FunctionDef, self_obj: Any, args, kwargs) -> Any:
+    def call_bound(self, fn: ast.FunctionDef, self_obj: Any, args, kwargs, level: int = 0) -> Any:
         params = [a.arg for a in fn.args.args]
-        bound: Dict[str, Any] = {params[0]: self_obj}
-        for p_, v in zip(params[1:], args):
+        is_static = any(isinstance(d, ast.Name) and d.id == "staticmethod" for d in fn.decorator_list)
+        bound: Dict[str, Any] = {} if is_static else {params[0]: self_obj}
+        rest = params if is_static else params[1:]
+        extra_pos = list(args[len(rest):])
+        for p_, v in zip(rest, args):
             bound[p_] = v
-        bound.update(kwargs)
-        return self.call_function(fn, bound)
+        kw = dict(kwargs)
+        if fn.args.vararg is not None:
+            bound[fn.args.vararg.arg] = tuple(extra_pos)
+        named = set(params) | {a.arg for a in fn.args.kwonlyargs}
+        if fn.args.kwarg is not None:
+            bound[fn.args.kwarg.arg] = {k: v for k, v in kw.items() if k not in named}
+            kw = {k: v for k, v in kw.items() if k in named}
+        bound.update(kw)
+        self._frames = getattr(self, "_frames", [])
+        self._frames.append((self_obj, level))
+        try:
+            return self.call_function(fn, bound)
+        finally:
+            self._frames.pop()
 
     def tick(self, node):
         self.steps += 1
@@ -406,6 +426,10 @@ class Mini:
                 return getattr(obj, e.attr)
             except AttributeError as ex:
                 raise InterpRaise("AttributeError", str(ex), e)
+        if isinstance(e, ast.Call) and isinstance(e.func, ast.Name) and e.func.id == "super" and not e.args and getattr(self, "_frames", None):
+            so, lvl = self._frames[-1]
+            if isinstance(so, Obj):
+                return _Super(so, lvl)
         if isinstance(e, ast.Call):
             f = self.ev(e.func, env)
             args: List[Any] = []
@@ -521,21 +545,47 @@ def module_globals(tree: ast.Module, stubs: Optional[Dict[str, Any]] = None) -> 
 
 
 class Obj:
-    """An object of a repository class: attributes are given by the checker, methods are interpreted from their AST."""
+    """An object of a repository class: attributes are given by the checker, methods are interpreted from their AST.
+    `methods` is one dictionary name → FunctionDef, or a list of such dictionaries in method-resolution order (own class
+    first); super() inside a method continues the look-up after the class that defines the running method."""
 
-    def __init__(self, interp: "Mini", methods: Dict[str, ast.FunctionDef], attrs: Dict[str, Any]):
+    def __init__(self, interp: "Mini", methods, attrs: Dict[str, Any]):
         object.__setattr__(self, "_mi_interp", interp)
-        object.__setattr__(self, "_mi_methods", methods)
+        object.__setattr__(self, "_mi_mro", methods if isinstance(methods, list) else [methods])
         for k, v in attrs.items():
             object.__setattr__(self, k, v)
 
+    def _mi_find(self, name, start=0):
+        mro = object.__getattribute__(self, "_mi_mro")
+        for lvl in range(start, len(mro)):
+            if name in mro[lvl]:
+                return mro[lvl][name], lvl
+        return None, None
+
     def __getattr__(self, name):
-        methods = object.__getattribute__(self, "_mi_methods")
-        if name in methods:
+        if name.startswith("_mi_"):
+            raise AttributeError(name)
+        fn, lvl = self._mi_find(name)
+        if fn is not None:
             interp = object.__getattribute__(self, "_mi_interp")
-            fn = methods[name]
-            return lambda *a, **k: interp.call_bound(fn, self, a, k)
+            return lambda *a, **k: interp.call_bound(fn, self, a, k, level=lvl)
         raise AttributeError(name)
+
+
+class _Super:
+    def __init__(self, obj: Obj, level: int):
+        self._obj, self._level = obj, level
+
+    def __getattribute__(self, name):
+        if name in ("_obj", "_level", "__class__", "__dict__"):
+            return object.__getattribute__(self, name)
+        fn, lvl = self._obj._mi_find(name, self._level + 1)
+        if fn is None:
+            if name == "__init__":
+                return lambda *a, **k: None
+            raise AttributeError(name)
+        interp = object.__getattribute__(self._obj, "_mi_interp")
+        return lambda *a, **k: interp.call_bound(fn, self._obj, a, k, level=lvl)
 
 
 class _Unbound:
